@@ -82,8 +82,8 @@ class Oracle:
     # ---- expected outcome class
     def must(self, op):
         k = op["op"]
-        if k in ("close",):
-            return "ok"
+        if k in ("close", "closeds"):
+            return "ok" if k == "close" else None
         if k == "reopen":
             return None
         if not self.open:
